@@ -7,10 +7,13 @@ CONSTANTS
   MaxLines = 4
   MaxElems = 3
   SaveAsSet = {"none", "file", "dir"}
-  Modes = {"deleted", "truncated", "nonjson", "unknown", "shape", "datagone"}
+  Modes = {"deleted", "truncated", "nonjson", "unknown", "shape", "datagone", "unopenable"}
   MayFail = TRUE
   OutcomeSet = {"content", "cmd", "timeout", "crash", "skip"}
   BackedSet = {FALSE, TRUE}
+  FilterSet = {FALSE}
+  Budget = 2
+  BudgetMode = "per-load"
   RecordMode = "component"
   PoolSet = {FALSE, TRUE}
   AssembleMode = "index"
